@@ -5,6 +5,7 @@ import (
 	"fmt"
 	"os"
 	"strings"
+	"sync/atomic"
 
 	"github.com/cloudwego/netpoll"
 	"verif/engine/shim/vsyscall"
@@ -181,3 +182,11 @@ func threadRole(ex *vsched.Exec, id int) string {
 	}
 	return n
 }
+
+// hbFlag is a harness-level hand-off that the race detector can see (a real atomic, which the
+// scheduler does not intercept): the harness must not look like an unsynchronised program when it
+// passes objects between its own threads (C19 would otherwise blame netpoll for it).
+type hbFlag struct{ v int32 }
+
+func (f *hbFlag) Set()     { atomic.AddInt32(&f.v, 1) }
+func (f *hbFlag) Acquire() { atomic.LoadInt32(&f.v) }
